@@ -118,6 +118,10 @@ class Position(NamedTuple):
                 break
 
         if target_line_index == -1:
+            # At the end of the text: on a new line if the text is empty or
+            # ends with a line break, else just after the last line.
+            if lines and lines[-1].splitlines()[0] == lines[-1]:
+                return len(lines), len(lines[-1]) + 1
             return len(lines) + 1, 1
 
         # 1-based
@@ -130,7 +134,9 @@ class Position(NamedTuple):
     def line_of(self) -> str:
         """Return the line of text that contains this position."""
         line_number, _ = self.line_col()
-        return self.text[line_number - 1]
+        lines = self.text.splitlines(keepends=True)
+        # The position after a final line break is on a new, empty line.
+        return lines[line_number - 1] if line_number <= len(lines) else ""
 
 
 class Pair:
